@@ -4,6 +4,7 @@ import NodisVerif.Proofs.C09Full
 import NodisVerif.Proofs.C09Writers3
 import NodisVerif.Proofs.C09IncrExec
 import NodisVerif.Proofs.GateInv
+import NodisVerif.Proofs.GateProgExamples
 import NodisVerif.Proofs.GeoReads
 import NodisVerif.Proofs.C11Pass
 import NodisVerif.Proofs.C11Examples
@@ -884,5 +885,60 @@ example : ∃ b, Handler4.table4 "GEOPOS" [[103], [109]] = some (.exec b) := ⟨
 example : "GEOPOS" ∈ geoReads := by decide
 
 end table4
+
+/-! ### The code around the gate as a program (Model/GateProg.lean): the protocol theorems above, transferred -/
+section gateprog
+open NodisVerif.Gate
+
+/-- `no_client_write_between_check_and_bodies` for the program: from a configuration in which EXEC is about to read
+    its watch flags (pc e3: `conn.WatchKeys.Scan`) or to report the check (e4), in every continuation of the schedule,
+    as long as `g` does not report leaving the gate, the program's trace is accepted by the protocol and every
+    keyspace step in it (transaction begin / end, watch signal) is `g`'s own or an embedded caller's. -/
+theorem gateprog_no_client_write_between_check_and_bodies (pre seg : List (GateProg.Tid × GateProg.Choice))
+    (g : GateProg.Tid)
+    (hpc : ((GateProg.run {} pre).1.loc g).pc = .e3 ∨ ((GateProg.run {} pre).1.loc g).pc = .e4)
+    (hn : Ev.gout g ∉ (GateProg.run (GateProg.run {} pre).1 seg).2) :
+    ∃ gs, Gate.run {} (GateProg.run {} pre).2 = some gs ∧
+      (Gate.run gs (GateProg.run (GateProg.run {} pre).1 seg).2).isSome = true ∧
+      SegOk g gs (GateProg.run (GateProg.run {} pre).1 seg).2 := by
+  obtain ⟨gs, h, hi, hr⟩ := GateProg.reach_inv pre
+  have hok := hi.ok g
+  have hx : ((GateProg.run {} pre).1.loc g).held = some .x ∧ ((GateProg.run {} pre).1.loc g).rep = true := by
+    generalize (GateProg.run {} pre).1.loc g = l at *
+    generalize ((GateProg.run {} pre).1.sh.conn g).commit = cm at *
+    rcases hpc with h | h <;> simp only [GateProg.ok, h, GateProg.frame, GateProg.cmdGate, Bool.and_eq_true] at hok <;>
+      (obtain ⟨⟨_, hg⟩, hc⟩ := hok; rw [beq_iff_eq.1 hc] at hg; simpa [GateProg.gateIs] using hg)
+  have hX : gs.holdsX g = true := holdsX_iff.2 ((hr.2.2 g .x).2 hx)
+  obtain ⟨gs', h', _, _⟩ := GateProg.sim_run seg _ gs hi hr
+  exact ⟨gs, h, by rw [h']; rfl, segment_inside_section _ gs g (inv_run _ {} gs inv_init h) hX hn⟩
+
+/-- `client_signal_is_gated` for the program: a goroutine that serves a connection is inside `signalModifiedKey`
+    (pcs g1 - g3) only while it holds a side of execMu that it has reported: the shared side of its command or of its
+    blocking pop's look, or the exclusive side of its EXEC. -/
+theorem gateprog_client_signal_is_gated (sch : List (GateProg.Tid × GateProg.Choice)) (g : GateProg.Tid)
+    (hpc : ((GateProg.run {} sch).1.loc g).pc = .g1 ∨ ((GateProg.run {} sch).1.loc g).pc = .g2 ∨
+           ((GateProg.run {} sch).1.loc g).pc = .g3)
+    (hc : ((GateProg.run {} sch).1.loc g).emb = false) :
+    ∃ m, (g, m) ∈ (GateProg.run {} sch).1.sh.execMu ∧ ((GateProg.run {} sch).1.loc g).rep = true := by
+  obtain ⟨gs, h, hi, hr⟩ := GateProg.reach_inv sch
+  have hok := hi.ok g
+  have hx : ∃ m, ((GateProg.run {} sch).1.loc g).held = some m ∧ ((GateProg.run {} sch).1.loc g).rep = true := by
+    generalize (GateProg.run {} sch).1.loc g = l at *
+    generalize ((GateProg.run {} sch).1.sh.conn g).commit = cm at *
+    rcases hpc with h | h | h <;> cases hx : l.ctx <;> cases hl : l.inLook <;>
+      simp_all [GateProg.ok, GateProg.bodyOk, GateProg.gateIs]
+  obtain ⟨m, hm, hrep⟩ := hx
+  exact ⟨m, (hi.mu g m).2 hm, hrep⟩
+
+open GateProg.Ex in
+example : ((GateProg.run {} schedToCheck).1.loc 1).pc = .e4 ∧
+    Ev.gout 1 ∉ (GateProg.run (GateProg.run {} schedToCheck).1 schedSeg).2 := by decide
+/-- a signalling SET of connection 2, stopped inside signalModifiedKey -/
+example : ((GateProg.run {} (GateProg.Ex.simple 1 (.watch ["k"]) ++ (GateProg.Ex.setK 2 5).take 9)).1.loc 2).pc = .g2 ∧
+    ((GateProg.run {} (GateProg.Ex.simple 1 (.watch ["k"]) ++ (GateProg.Ex.setK 2 5).take 9)).1.loc 2).emb = false := by decide
+/-- … and the signal reaches the watching connection, whose EXEC then answers null without running a body -/
+example : ((GateProg.run {} GateProg.Ex.schedWatch).1.loc 1).noChange = false := by decide
+
+end gateprog
 
 end NodisVerif.C09
